@@ -72,12 +72,20 @@ func (l AGUEVar0) CanDecode() gopacket.LayerClass {
 }
 
 // DecodeFromBytes extracts our header data from a serialized packet.
-func (l *AGUEVar0) DecodeFromBytes(data []byte, _ gopacket.DecodeFeedback) error {
+func (l *AGUEVar0) DecodeFromBytes(data []byte, df gopacket.DecodeFeedback) error {
+	if len(data) < 4 {
+		df.SetTruncated()
+		return errors.New("AGUEVar0 header is less than 4 bytes")
+	}
 	l.Version = data[0] >> 6
 	l.C = data[0]&0x20 != 0
 	l.Protocol = IPProtocol(data[1])
 	l.Flags = (uint16(data[2]) << 8) | uint16(data[3])
-	hlen := data[0] & 0x1f
+	hlen := int(data[0] & 0x1f)
+	if len(data) < 4+hlen {
+		df.SetTruncated()
+		return errors.New("AGUEVar0 extensions exceed packet size")
+	}
 	l.Extensions = data[4 : 4+hlen]
 	l.Data = data[4+hlen:]
 	return nil
